@@ -18,6 +18,7 @@ func init() {
 			`R04.2 the non-loop prefix written to the signature stream (magic, SignatureHeader, compression point, container = the new build's) equals the prefix ReadSignature reads, and the same for the patch stream across its writers (WritePatch, Optimize) and readers (patcher.New, rediff analyzePatch/Optimize, genie.ParseHeader); ` +
 			`R04.3 one read, two consumers: the diff and the signature of a file read from two Reader()s of the same multiread whose upstream is pool.GetReader(fileIndex), and the signature is computed for that same index; ` +
 			`R04.4 symlink destinations read from disk are compared with / created from the signed Dest modulo filepath.FromSlash only (tlc records Readlink verbatim). ` +
+			`R04.6 also: the strong hash written does not come out of a variable that survives from one block to the next (captured variable, field, package variable, map). ` +
 			`NOT decided: block boundaries under re-chunking, hash values, that validating a pristine copy reports nothing.`,
 		Run: runC04,
 	})
@@ -524,6 +525,62 @@ func ruleSignedHashesAreComputed(c *core.Ctx, rule string) {
 			}
 			c.Check(okHash, rule, core.FnName(fn), "signature writer is handed a computed hash", core.InstrPos(in),
 				"the BlockHash's StrongHash comes from uniqueHash / HashBlock", "a BlockHash whose strong hash was not computed by the hashing context is written to a signature (a literal made up on the side): the signature written while diffing differs from the one computed directly")
+			// ... and computed for this block, in this call: not taken out of a variable that lives from one
+			// block to the next (a hash remembered for "the same" block belongs to a block of the same length
+			// and content, which a memo keyed by less than that does not guarantee)
+			remembered := ""
+			for _, o := range core.Origins(cl.Call.Args[0]) {
+				if ld, ok := o.(*ssa.UnOp); ok && ld.Op == token.MUL {
+					o = ld.X
+				}
+				a, ok := o.(*ssa.Alloc)
+				if !ok {
+					continue
+				}
+				v, ok := litField(a, "StrongHash")
+				if !ok {
+					continue
+				}
+				seen := map[ssa.Value]bool{}
+				var walk func(v ssa.Value)
+				walk = func(v ssa.Value) {
+					v = core.StoredHere(core.StripConv(v))
+					if seen[v] {
+						return
+					}
+					seen[v] = true
+					switch x := v.(type) {
+					case *ssa.Phi:
+						for _, e := range x.Edges {
+							walk(e)
+						}
+					case *ssa.UnOp:
+						if x.Op != token.MUL {
+							return
+						}
+						switch r := x.X.(type) {
+						case *ssa.FreeVar:
+							remembered = "the captured variable " + r.Name()
+						case *ssa.FieldAddr:
+							_, n, _ := core.FieldOf(r)
+							remembered = "the field " + n
+						case *ssa.Global:
+							remembered = "the package variable " + r.Name()
+						case *ssa.Alloc:
+							// a local of this call: what was stored into it
+							for _, st := range core.CellStores(r) {
+								walk(st.Val)
+							}
+						}
+					case *ssa.Lookup:
+						remembered = "a map"
+					}
+				}
+				walk(v)
+			}
+			c.Check(remembered == "", rule, core.FnName(fn), "the hash written is computed for this block in this call", core.InstrPos(in),
+				"the StrongHash does not come out of a variable that survives from one block to the next",
+				"the strong hash written for a block can come out of "+remembered+", filled in while hashing an earlier block: a remembered hash is the hash of that other block (another length, if nothing else), and the signature then disagrees with the content it signs")
 		})
 	}
 	c.Floor(rule, "calls of a signature writer", n, 1)
